@@ -86,6 +86,21 @@ def check_case(prog, env, pid, want_schedules=True, forms=None):
                 if r.canon() != c0:
                     viols.append(('schedule-dependent', f'same inputs, different outcome: {_brief(members[0][0])} vs {_brief(r)}', sd))
             cnt['reorderings'] += len(orders) - 1
+    if pid in ('C01', 'C04', 'C05') and any(l['form'] == 'b' for l in prog):
+        # both forms requested, in both orders
+        rab = e2a.execute(prog, env, schedule=world.Schedule('natural'), requested=('a', 'b'), forms=forms)
+        rba = e2a.execute(prog, env, schedule=world.Schedule('natural'), requested=('b', 'a'), forms=forms)
+        cnt['executions'] += 2
+        for rr, req in ((rab, ['a', 'b']), (rba, ['b', 'a'])):
+            if pid == 'C01':
+                for kind, msg in refeval.compare(rr, refeval.Ref(forms, req, rr.final_inputs).run()):
+                    viols.append((kind, f'requested {req}: {msg}', {'requested': req}))
+            elif pid == 'C04':
+                errs, _ = monitors.c04(forms, req, rr)
+                for kind, msg in errs:
+                    viols.append((kind, f'requested {req}: {msg}', {'requested': req}))
+        if pid == 'C05' and rab.final_inputs == rba.final_inputs and rab.canon() != rba.canon():
+            viols.append(('request-order-dependent', f'requested [a, b] vs [b, a]: {_brief(rab)} vs {_brief(rba)}', None))
     if pid == 'C01' and r0.exc is None:
         # histories on one store: solve; delete one supplied input from the SAME store object; solve again (no prompt).
         # The second solve must be the fixed point of the reduced inputs (nothing remembered from the first).
